@@ -2,7 +2,7 @@
    proofs are in theories/C13_*proofs.v.  [verify] (jws.Verify) is arbitrary.
    exec verify (init skip) evs = the state after ANY list of events
    (Arrive / Run / RunCtx / Cancel / FetchReturns / Commit), enabled or not. *)
-From OIDC Require Import Lib C13_RemoteKeys C13_proofs C13_thm_proofs C13_isolation_proofs C13_examples.
+From OIDC Require Import Lib C13_RemoteKeys C13_proofs C13_thm_proofs C13_isolation_proofs C13_spec C13_model_proofs C13_examples.
 
 (* A call finishes Ok only with a key k that FindMatchingKey selects from a key set
    the endpoint really served - the cache the call read or the body of the download it
@@ -107,3 +107,12 @@ Theorem C13_cancel_isolation : forall verify skip evs t',
   forall t, t <> t' -> nth_error (w_callers w1) t = nth_error (w_callers w2) t.
 Proof. exact cancel_isolation. Qed.
 Print Assumptions C13_cancel_isolation.
+
+(* Tie to the correspondence run: every snapshot the model runner predicts for a script is
+   the snapshot of a world reached by some schedule, i.e. of a world all theorems above
+   speak about (with the symbolic verify of DESIGN 4.4). *)
+Theorem C13_model_is_a_schedule : forall skip ms k s,
+  nth_error (run_script (init skip) ms) k = Some s ->
+  exists evs d, s = snap_of (exec sym_verify (init skip) evs) d.
+Proof. exact model_is_a_schedule. Qed.
+Print Assumptions C13_model_is_a_schedule.
